@@ -15,18 +15,6 @@ import (
 	"verifsim/node"
 )
 
-// Generators per property.
-var Generators = map[string]func(seed uint64) *Plan{
-	"C01": GenC01,
-	"C02": GenC02x,
-	"C03": GenC03,
-	"C04": GenC04,
-	"C06": GenC06,
-}
-
-// Extras per property (additional oracles).
-var Extras = map[string]func(p *Plan) Extra{}
-
 func RunSeed(seedBase uint64, prop string, i int) uint64 {
 	var buf [16]byte
 	binary.BigEndian.PutUint64(buf[0:], seedBase)
@@ -107,6 +95,9 @@ func TestWorker(t *testing.T) {
 		if err := json.Unmarshal(b, &r); err != nil {
 			t.Fatal(err)
 		}
+		if r.Plan != nil && r.Plan.Checks == nil {
+			r.Plan.Checks = map[string]bool{}
+		}
 		if os.Getenv("VERIF_MINIMISE") != "" {
 			budget := time.Duration(envInt("VERIF_MIN_BUDGET_S", 20)) * time.Second
 			m := Minimise(t, &r, budget)
@@ -120,20 +111,35 @@ func TestWorker(t *testing.T) {
 		return
 	}
 	gen := Generators[prop]
-	if gen == nil {
+	idx := Indexed[prop]
+	if gen == nil && idx == nil {
 		t.Fatalf("no generator for %s", prop)
+	}
+	if os.Getenv("VERIF_ENUM_SIZE") != "" && prop == "C02" {
+		emit(map[string]any{"enum_size": C02EnumSize(t)})
+		return
 	}
 	base := uint64(envInt("VERIF_SEED", 1))
 	from, to := envInt("VERIF_FROM", 0), envInt("VERIF_TO", 10)
 	deadline := int64(envInt("VERIF_DEADLINE", 0))
 	rdir := os.Getenv("VERIF_REPLAYDIR")
-	for i := from; i < to; i++ {
+	stride := envInt("VERIF_STRIDE", 1)
+	for i := from; i < to; i += stride {
 		if deadline > 0 && time.Now().Unix() >= deadline {
 			emit(map[string]any{"deadline_at": i})
 			break
 		}
 		seed := RunSeed(base, prop, i)
-		plan := gen(seed)
+		var plan *Plan
+		if idx != nil {
+			var ok bool
+			plan, ok = idx(t, i, base)
+			if !ok {
+				break
+			}
+		} else {
+			plan = gen(seed)
+		}
 		emit(map[string]any{"start": i, "seed": seed})
 		st := core.NewStream(seed ^ 0x5bd1e995)
 		st.Limit = envInt("VERIF_MAX_DECISIONS", 6000)
